@@ -29,12 +29,13 @@ import translate_lr
 import vlib
 from vlib import Broken, Check, clist
 
-HEADER = """From Coq Require Import List Arith.
+HEADER = """From Coq Require Import List Arith NArith.
 From BP Require Import LR LRConcrete LRCase.
 From BPGen Require Import GenLR.
 Import ListNotations.
+Open Scope N_scope.
 """
-HEADER_T = """From Coq Require Import ZArith List Bool String Arith.
+HEADER_T = """From Coq Require Import ZArith NArith List Bool String Arith.
 From BP Require Import Schema FrontBase Front LR LRConcrete LRCase LRFront.
 From BPGen Require Import GenLR.
 Import ListNotations.
@@ -165,8 +166,8 @@ def lr_stage(ck: Check, prop_file: str, sizes_quick: Dict[str, int], sizes_thoro
             f"  ({clist(str(tid[t]) for t in r['types'])}, {_coq_obs(r['syn'], tid, len(r['types']))})" for c, r in part)
         path = os.path.join(ck.dir, f"lr_{label}_{si // shard}.v")
         with open(path, "w") as f:
-            f.write(HEADER + "Definition cases : list (list nat * obs) := [\n" + body + "\n].\n"
-                    "Eval vm_compute in map case_code cases.\n")
+            f.write(HEADER + "Definition cases : list (list N * obsN) := [\n" + body + "\n].\n"
+                    "Eval vm_compute in map case_code_N cases.\n")
         files.append((path, part))
     trows = [(t, r) for t, r in zip(trees, res_t) if "worker_error" not in r]
     for t, r in zip(trees, res_t):
@@ -177,12 +178,12 @@ def lr_stage(ck: Check, prop_file: str, sizes_quick: Dict[str, int], sizes_thoro
     for si in range(0, len(trows), tshard):
         part = trows[si:si + tshard]
         body = ";\n".join(
-            f"  ({clist(fg.coq_item(i) for i in t['items'])}, ({clist(str(tid[x]) for x in r['types'])}%nat, "
-            f"{_coq_obs(r['syn'], tid, len(r['types']))}%nat))" for t, r in part)
+            f"  ({clist(fg.coq_item(i) for i in t['items'])}, ({clist(str(tid[x]) for x in r['types'])}%N, "
+            f"{_coq_obs(r['syn'], tid, len(r['types']))}%N))" for t, r in part)
         path = os.path.join(ck.dir, f"lrtree_{label}_{si // tshard}.v")
         with open(path, "w") as f:
-            f.write(HEADER_T + "Definition cases : list (list item * (list nat * obs)) := [\n" + body + "\n].\n"
-                    "Eval vm_compute in map tree_code cases.\n")
+            f.write(HEADER_T + "Definition cases : list (list item * (list N * obsN)) := [\n" + body + "\n].\n"
+                    "Eval vm_compute in map tree_code_N cases.\n")
         tfiles.append((path, part))
     outs: Dict[str, str] = {}
     if ck.model_ok:
